@@ -20,6 +20,7 @@ import NxsModel.Lemmas.Serial
 import NxsModel.Lemmas.Requests
 import NxsModel.Pad
 import NxsModel.Dispatch
+import NxsModel.Lemmas.R7Built
 namespace Nxs.C05
 open Nxs Nxs.Spec Nxs.Requests
 
@@ -341,5 +342,275 @@ example : (Requests.frameEnable (.vec [true, false, true]) 3).map
 /-- non-vacuity -/
 example : frameDiv (.single 3 200) 8 = .ok (wire 7 [0, 3, 200]) := by decide +kernel
 example : frameDivDecode [0, 3, 200] 8 [0,0,0,0,0,0,0,0] = .ok [0,0,0,200,0,0,0,0] := by decide +kernel
+
+/-! ## Round 7 additions
+
+  * `req_lengths` — length of every request (6 + payload): start 7, cmninfo 6, chinfo 7, single / ALL 9, BULK n + 8;
+  * `ask_build_injective` — on the property's quantifier two different requests never produce the same bytes;
+    `same_bytes_same_meaning` — (independently, through the device) equal bytes mean the same state change;
+  * `single_equals_vector_en` / `_div` — a single-channel change and the full vector that differs from the device's
+    current vector in that one channel end in the same device state (single vs bulk / all at the device);
+  * `session_append` — sessions compose over concatenated histories (ANY asks, valid or not);
+  * `session_padding_invisible` — for ANY asks (valid or not, e.g. a channel the device does not have) and any
+    write padding the session ends exactly as the unpadded one: same state or same exception. -/
+
+/-- frame id and NxScope payload of what a caller asks -/
+def fidOf : Ask → Nat
+  | .enOne .. | .enVec .. => 6
+  | .divOne .. | .divVec .. => 7
+def payOf : Ask → Bytes
+  | .enOne c v => specSingle c (b2n v)
+  | .enVec vs => specVec (vs.map b2n)
+  | .divOne c v => specSingle c v
+  | .divVec vs => specVec vs
+
+theorem ask_bytes (n : Nat) (h1 : 1 ≤ n) (hn : n ≤ 255) (a : Ask) (ha : Valid n a) :
+    a.build n = .ok (wire (fidOf a) (payOf a)) := by
+  cases a with
+  | enOne c v => exact req_bytes_en_single n c v ha hn
+  | enVec vs => exact req_bytes_en_vec n vs ha h1 hn
+  | divOne c v => exact req_bytes_div_single n c v ha.1 hn ha.2
+  | divVec vs => exact req_bytes_div_vec n vs ha.1 h1 hn ha.2
+
+private theorem specVec_length_le (vs : List Nat) : (specVec vs).length ≤ vs.length + 2 ∨ (specVec vs).length = 3 := by
+  cases vs with
+  | nil => left; simp [specVec]
+  | cons v vs => rcases specVec_len (v :: vs) (by simp) with h | h
+                 · right; exact h
+                 · left; omega
+
+theorem payOf_length (n : Nat) (hn : n ≤ 255) (a : Ask) (ha : Valid n a) : (payOf a).length ≤ 65529 := by
+  cases a with
+  | enOne c v => simp [payOf, specSingle]
+  | enVec vs =>
+    have hl : vs.length = n := ha
+    have := specVec_length_le (vs.map b2n); rw [List.length_map] at this
+    simp only [payOf]; omega
+  | divOne c v => simp [payOf, specSingle]
+  | divVec vs =>
+    have hl : vs.length = n := ha.1
+    have := specVec_length_le vs
+    simp only [payOf]; omega
+
+/-- round 7: the length of every request: 6 bytes of frame + the payload -/
+theorem req_lengths (n : Nat) (h1 : 1 ≤ n) (hn : n ≤ 255) :
+    (∀ b f, frameStart b = .ok f → f.length = 7) ∧ (∀ f, frameCmninfo = .ok f → f.length = 6) ∧
+    (∀ c f, c ≤ 255 → frameChinfo (c : Nat) = .ok f → f.length = 7) ∧
+    (∀ a f, Valid n a → a.build n = .ok f →
+      f.length = match a with
+        | .enOne .. | .divOne .. => 9
+        | .enVec vs => if allSame vs then 9 else n + 8
+        | .divVec vs => if allSame vs then 9 else n + 8) := by
+  refine ⟨fun b f h => ?_, fun f h => ?_, fun c f hc h => ?_, fun a f ha h => ?_⟩
+  · rw [req_bytes_start] at h; rw [← Except.ok.inj h, Serial.wire_length]; rfl
+  · rw [req_bytes_cmninfo] at h; rw [← Except.ok.inj h, Serial.wire_length]; rfl
+  · rw [req_bytes_chinfo c hc] at h; rw [← Except.ok.inj h, Serial.wire_length]; rfl
+  · rw [ask_bytes n h1 hn a ha] at h
+    rw [← Except.ok.inj h, Serial.wire_length]
+    cases a with
+    | enOne c v => rfl
+    | divOne c v => rfl
+    | enVec vs =>
+      have hl : vs.length = n := ha
+      cases vs with
+      | nil => simp at hl; omega
+      | cons v r =>
+        have hsv : specVec ((v :: r).map b2n) = if allSame ((v :: r).map b2n) then specAll (b2n v)
+            else specBulk ((v :: r).map b2n) := rfl
+        simp only [payOf]
+        rw [hsv, allSame_map b2n (fun a b h => by cases a <;> cases b <;> first | rfl | cases h)]
+        split
+        · rfl
+        · simp only [specBulk, List.length_cons, List.length_map] at hl ⊢; omega
+    | divVec vs =>
+      have hl : vs.length = n := ha.1
+      cases vs with
+      | nil => simp at hl; omega
+      | cons v r =>
+        have hsv : specVec (v :: r) = if allSame (v :: r) then specAll v else specBulk (v :: r) := rfl
+        simp only [payOf]
+        rw [hsv]
+        split
+        · rfl
+        · simp only [specBulk, List.length_cons, List.length_map] at hl ⊢; omega
+
+private theorem wire_inj (fid fid' : Nat) (p p' : Bytes) (hp : p.length ≤ 65529) (hp' : p'.length ≤ 65529)
+    (hf : fid ≤ 8) (hf' : fid' ≤ 8) (h : wire fid p = wire fid' p') : fid = fid' ∧ p = p' := by
+  have h1 := Serial.frameDecode_wire fid p hp hf
+  rw [h, Serial.frameDecode_wire fid' p' hp' hf'] at h1
+  have h3 := Except.ok.inj h1
+  injection h3 with ha hb
+  exact ⟨ha.symm, hb.symm⟩
+
+private theorem byte_inj (a b : Nat) (ha : a ≤ 255) (hb : b ≤ 255) (h : byte a = byte b) : a = b := by
+  have := congrArg BitVec.toNat h
+  simp only [byte, BitVec.toNat_ofNat] at this
+  omega
+
+private theorem b2n_le (v : Bool) : b2n v ≤ 255 := by cases v <;> decide
+private theorem b2n_inj (v w : Bool) (h : b2n v = b2n w) : v = w := by
+  cases v <;> cases w <;> first | rfl | cases h
+
+private theorem single_ne_vec (c v : Nat) (vs : List Nat) (h : specSingle c v = specVec vs) : False := by
+  cases vs with
+  | nil => simp [specSingle, specVec] at h
+  | cons x r =>
+    have hsv : specVec (x :: r) = if allSame (x :: r) then specAll x else specBulk (x :: r) := rfl
+    rw [hsv] at h
+    split at h
+    · have := (List.cons.inj h).1; exact absurd this (by decide)
+    · have := (List.cons.inj h).1; exact absurd this (by decide)
+
+/-- round 7: **the request builders are injective on the property's quantifier** — two different valid requests to
+    a device of `n` channels never produce the same bytes (so the bytes on the wire determine what was asked) -/
+theorem ask_build_injective (n : Nat) (h1 : 1 ≤ n) (hn : n ≤ 255) (a b : Ask) (ha : Valid n a) (hb : Valid n b)
+    (h : a.build n = b.build n) : a = b := by
+  rw [ask_bytes n h1 hn a ha, ask_bytes n h1 hn b hb] at h
+  obtain ⟨hf, hp⟩ := wire_inj _ _ _ _ (payOf_length n hn a ha) (payOf_length n hn b hb)
+    (by cases a <;> simp [fidOf]) (by cases b <;> simp [fidOf]) (Except.ok.inj h)
+  cases a with
+  | enOne c v =>
+    cases b with
+    | enOne c' v' =>
+      simp only [payOf, specSingle, List.cons.injEq, and_true, true_and] at hp
+      have hc : c < n := ha
+      have hc' : c' < n := hb
+      rw [byte_inj c c' (by omega) (by omega) hp.1, b2n_inj v v' (byte_inj _ _ (b2n_le v) (b2n_le v') hp.2)]
+    | enVec vs => exact (single_ne_vec _ _ _ hp).elim
+    | divOne c' v' => cases hf
+    | divVec vs => cases hf
+  | enVec vs =>
+    cases b with
+    | enOne c' v' => exact (single_ne_vec _ _ _ hp.symm).elim
+    | enVec vs' =>
+      have e1 := en_vec_decodes n vs [] ha h1
+      have e2 := en_vec_decodes n vs' [] hb h1
+      simp only [payOf] at hp
+      rw [hp, e2] at e1
+      rw [Except.ok.inj e1]
+    | divOne c' v' => cases hf
+    | divVec vs' => cases hf
+  | divOne c v =>
+    cases b with
+    | enOne c' v' => cases hf
+    | enVec vs => cases hf
+    | divOne c' v' =>
+      simp only [payOf, specSingle, List.cons.injEq, and_true, true_and] at hp
+      rw [byte_inj c c' (by have := ha.1; omega) (by have := hb.1; omega) hp.1, byte_inj v v' ha.2 hb.2 hp.2]
+    | divVec vs => exact (single_ne_vec _ _ _ hp).elim
+  | divVec vs =>
+    cases b with
+    | enOne c' v' => cases hf
+    | enVec vs' => cases hf
+    | divOne c' v' => exact (single_ne_vec _ _ _ hp.symm).elim
+    | divVec vs' =>
+      have e1 := div_vec_decodes n vs [] ha.1 h1 ha.2
+      have e2 := div_vec_decodes n vs' [] hb.1 h1 hb.2
+      simp only [payOf] at hp
+      rw [hp, e2] at e1
+      have := Except.ok.inj e1
+      rw [List.map_inj_right (fun a b h => Int.ofNat.inj h) |>.mp this]
+
+example : Valid 3 (.enVec [true, true, true]) ∧ Valid 3 (.enOne 0 true) ∧
+    Ask.build 3 (.enVec [true, true, true]) ≠ Ask.build 3 (.enOne 0 true) := by
+  refine ⟨rfl, (by decide : 0 < 3), fun h => ?_⟩
+  have := ask_build_injective 3 (by omega) (by omega) (.enVec [true, true, true]) (.enOne 0 true) rfl (by decide : 0 < 3) h
+  cases this
+
+/-- round 7: equal request bytes mean the same state change at the device (proved through the device's receive
+    path, independently of `ask_build_injective`) -/
+theorem same_bytes_same_meaning (n : Nat) (h1 : 1 ≤ n) (hn : n ≤ 255) (s : DevSt) (hen : s.en.length = n)
+    (hdiv : s.div.length = n) (a b : Ask) (ha : Valid n a) (hb : Valid n b) (h : a.build n = b.build n) :
+    intend s a = intend s b := by
+  obtain ⟨f, cb, hf, hr⟩ := ask_reaches_device n 0 h1 hn s hen hdiv a ha
+  obtain ⟨f', cb', hf', hr'⟩ := ask_reaches_device n 0 h1 hn s hen hdiv b hb
+  rw [h, hf'] at hf
+  rw [← Except.ok.inj hf, hr'] at hr
+  exact (congrArg Prod.fst hr).symm
+
+/-- round 7: **single vs vector at the device** — changing one channel by a single request, or by sending the whole
+    vector that differs from the device's current one in that channel (ALL or BULK form, the builder decides), ends in
+    the same device state -/
+theorem single_equals_vector_en (n pad : Nat) (h1 : 1 ≤ n) (hn : n ≤ 255) (s : DevSt) (hen : s.en.length = n)
+    (hdiv : s.div.length = n) (c : Nat) (v : Bool) (hc : c < n) :
+    session n pad s [.enOne c v] = session n pad s [.enVec (s.en.set c v)] ∧
+    session n pad s [.enOne c v] = .ok { s with en := s.en.set c v } := by
+  have e1 := history_agrees n pad h1 hn [.enOne c v] s hen hdiv (by
+    intro a ha; simp only [List.mem_cons, List.not_mem_nil, or_false] at ha; subst ha; exact hc)
+  have e2 := history_agrees n pad h1 hn [.enVec (s.en.set c v)] s hen hdiv (by
+    intro a ha; simp only [List.mem_cons, List.not_mem_nil, or_false] at ha; subst ha
+    show (s.en.set c v).length = n
+    simp [hen])
+  rw [e1, e2]
+  exact ⟨rfl, rfl⟩
+
+theorem single_equals_vector_div (n pad : Nat) (h1 : 1 ≤ n) (hn : n ≤ 255) (s : DevSt) (ds : List Nat)
+    (hen : s.en.length = n) (hds : s.div = ds.map Int.ofNat) (hl : ds.length = n) (hv : ∀ x ∈ ds, x ≤ 255)
+    (c v : Nat) (hc : c < n) (hv' : v ≤ 255) :
+    session n pad s [.divOne c v] = session n pad s [.divVec (ds.set c v)] ∧
+    session n pad s [.divOne c v] = .ok { s with div := s.div.set c (v : Int) } := by
+  have hdiv : s.div.length = n := by rw [hds, List.length_map, hl]
+  have e1 := history_agrees n pad h1 hn [.divOne c v] s hen hdiv (by
+    intro a ha; simp only [List.mem_cons, List.not_mem_nil, or_false] at ha; subst ha; exact ⟨hc, hv'⟩)
+  have e2 := history_agrees n pad h1 hn [.divVec (ds.set c v)] s hen hdiv (by
+    intro a ha; simp only [List.mem_cons, List.not_mem_nil, or_false] at ha; subst ha
+    refine ⟨by simp [hl], fun x hx => ?_⟩
+    rcases List.mem_or_eq_of_mem_set hx with h | h
+    · exact hv x h
+    · omega)
+  rw [e1, e2]
+  refine ⟨?_, rfl⟩
+  simp only [List.foldl_cons, List.foldl_nil, intend, hds, List.map_set]
+  rfl
+
+example : session 3 4 ⟨[true, false, true], [1, 2, 3]⟩ [.enOne 1 true] =
+    session 3 4 ⟨[true, false, true], [1, 2, 3]⟩ [.enVec [true, true, true]] :=
+  (single_equals_vector_en 3 4 (by omega) (by omega) _ rfl rfl 1 true (by omega)).1
+
+/-- round 7: sessions compose over concatenated histories — for ANY asks, valid or not (an exception in the first
+    part is the exception of the whole) -/
+theorem session_append (n pad : Nat) (as bs : List Ask) : ∀ (s : DevSt),
+    session n pad s (as ++ bs) = (session n pad s as).bind fun s' => session n pad s' bs := by
+  induction as with
+  | nil => intro s; rfl
+  | cons a as ih =>
+    intro s
+    simp only [List.cons_append, session]
+    cases hb : a.build n with
+    | error e => rfl
+    | ok f =>
+      simp only [ok_bind]
+      rcases hr : devRecv n s (Pad.dataAlign pad f) with ⟨s', r⟩
+      cases r with
+      | ok o => exact ih s'
+      | error e => rfl
+
+/-- round 7: **the write padding is invisible to a whole session, whatever is asked** — valid requests, requests
+    the builder refuses (divider 300: both sessions stop with the builder's exception) and requests the device
+    refuses (channel 200 of a 3-channel device: both stop with the device's exception) alike -/
+theorem session_padding_invisible (n pad : Nat) (asks : List Ask) : ∀ (s : DevSt),
+    session n pad s asks = session n 0 s asks := by
+  induction asks with
+  | nil => intro s; rfl
+  | cons a as ih =>
+    intro s
+    simp only [session]
+    cases hb : a.build n with
+    | error e => rfl
+    | ok f =>
+      simp only [ok_bind]
+      have hB := R7.ask_built n a f hb
+      have e : devRecv n s (Pad.dataAlign pad f) = devRecv n s (Pad.dataAlign 0 f) := by
+        unfold devRecv; rw [R7.built_align pad f hB, R7.built_align 0 f hB]
+      rw [e]
+      rcases devRecv n s (Pad.dataAlign 0 f) with ⟨s', r⟩
+      cases r with
+      | ok o => exact ih s'
+      | error e => rfl
+
+example : session 3 16 ⟨[false, false, false], [0, 0, 0]⟩ [.enOne 1 true, .enOne 200 true] = .error .indexError := by
+  decide +kernel
+example : session 3 16 ⟨[false, false, false], [0, 0, 0]⟩ [.divOne 1 300] = .error .valueError := by
+  decide +kernel
 
 end Nxs.C05
